@@ -369,6 +369,48 @@ def completeIndices (self : Loc) (parent : Option Loc) : List Rat :=
       | some mine, some pg => if addingIsValid mine pg then vadd self.indices p.indices else self.indices
       | _, _ => self.indices
 
+/-- `getCompleteIndices` raises instead of returning when the addition is valid but the parent locator is a
+`CoordinateLocation` inside a grid: its `indices` are float coordinates and numpy refuses the in-place
+`int64 += float64` (`UFuncTypeError`, whatever the values). -/
+def completeIndicesRaises (self : Loc) (parent : Option Loc) : Bool :=
+  match self, parent with
+  | .index (some mine) _ _ _, some (.coord (some pg) _ _ _) => addingIsValid mine pg
+  | _, _ => false
+
+/-- `getCompleteIndices` of the FIRST locator of a chain [self, parentLocation, grandparent, …]:
+only `parentLocation` (the second element) is ever consulted — the recursion of the coordinates does
+not exist for indices -/
+def completeIndicesChain : List Loc → List Rat
+  | [] => []
+  | l :: rest => completeIndices l rest.head?
+
+/-- a chain element: a plain locator, or an index locator living in a `ThetaRZGrid`, whose
+`getLocalCoordinates()` goes through `ThetaRZGrid.getCoordinates(nativeCoords=False)`
+(`tau`, cos θ, sin θ as parameters, see `trzGetCoordinates`) -/
+inductive LocT where
+  | plain (l : Loc)
+  | trz (tau cs sn : Rat) (g : G) (i j k : Int)
+deriving Repr
+
+/-- forget the θ-R-Z conversion (`getCellBase` / `getCellTop` / `indices` do not use it) -/
+def LocT.toLoc : LocT → Loc
+  | .plain l => l
+  | .trz _ _ _ g i j k => .index (some g) i j k
+
+/-- `getLocalCoordinates` of a chain element -/
+def LocT.localCoords : LocT → Option (List Rat)
+  | .plain l => l.localCoords
+  | .trz tau cs sn g i j k => trzGetCoordinates tau cs sn false g [i, j, k]
+
+/-- `getGlobalCoordinates` along a chain that may pass through θ-R-Z grids -/
+def globalCoordsT : List LocT → Option (List Rat)
+  | [] => none
+  | [l] => l.localCoords
+  | l :: rest => do
+    let a ← l.localCoords
+    let b ← globalCoordsT rest
+    some (vadd a b)
+
 /-! ### changing the pitch -/
 
 /-- `HexGrid._getRawUnitSteps(pitch, cornersUp)`; `s3` stands for √3 (`hexagon.SQRT3`) -/
@@ -441,5 +483,71 @@ def applyMut (gs : GS) : Mut → Option GS
 def applyMuts : GS → List Mut → Option GS
   | gs, [] => some gs
   | gs, m :: ms => (applyMut gs m).bind (fun gs' => applyMuts gs' ms)
+
+/-! ### location labels: `Grid.getLabel` (grid.py) and `locatorLabelToIndices` (grids/__init__.py)
+
+A label is a string over the alphabet {'-', '0'…'9', anything else}. -/
+
+/-- one character of a label -/
+inductive Sym where
+  | dash
+  | dig (d : Nat)
+  | other
+deriving DecidableEq, Repr
+
+/-- decimal digits of `n`, least significant first (`fuel` > n suffices) -/
+def natDigitsLE : Nat → Nat → List Nat
+  | 0, _ => []
+  | f + 1, n => if n < 10 then [n] else (n % 10) :: natDigitsLE f (n / 10)
+
+/-- Python `str(n)` for n ≥ 0, as digit values, most significant first -/
+def render (n : Nat) : List Nat := (natDigitsLE (n + 1) n).reverse
+
+/-- zero-pad to width `w` (never truncates) -/
+def pad0 (w : Nat) (ds : List Nat) : List Sym :=
+  (List.replicate (w - ds.length) (Sym.dig 0)) ++ ds.map Sym.dig
+
+/-- Python `f"{n:03d}"`: the sign counts towards the width of 3 -/
+def fmt03 (n : Int) : List Sym :=
+  if n < 0 then Sym.dash :: pad0 2 (render n.natAbs) else pad0 3 (render n.toNat)
+
+/-- `Grid.getLabel(indices)`: `i, j = indices[:2]` (ValueError for fewer than two = `none`), the third index
+only when there are exactly three -/
+def getLabel (idx : List Int) : Option (List Sym) :=
+  match idx with
+  | [] => none
+  | [_] => none
+  | [i, j, k] => some (fmt03 i ++ Sym.dash :: fmt03 j ++ Sym.dash :: fmt03 k)
+  | i :: j :: _ => some (fmt03 i ++ Sym.dash :: fmt03 j)
+
+/-- Python `label.split("-")` -/
+def splitDash : List Sym → List (List Sym)
+  | [] => [[]]
+  | Sym.dash :: rest => [] :: splitDash rest
+  | s :: rest =>
+    match splitDash rest with
+    | hd :: tl => (s :: hd) :: tl
+    | [] => [[s]]
+
+def symDigits : List Sym → Option (List Nat)
+  | [] => some []
+  | Sym.dig d :: r => (symDigits r).map (d :: ·)
+  | _ :: _ => none
+
+def parseDigits (ds : List Nat) : Nat := ds.foldl (fun acc d => acc * 10 + d) 0
+
+/-- Python `int(s)` on a piece of a label split at '-' (so no sign can be left): one or more decimal digits;
+`none` = ValueError (empty piece, foreign character).  Domain of the tie: labels over digits and '-' only. -/
+def pyInt (t : List Sym) : Option Int :=
+  match t with
+  | [] => none
+  | _ => (symDigits t).map (fun ds => ((parseDigits ds : Nat) : Int))
+
+/-- `locatorLabelToIndices(label)`: exactly two values get a trailing `None`; any other count is returned as is -/
+def labelToIndices (label : List Sym) : Option (List (Option Int)) :=
+  match (splitDash label).mapM pyInt with
+  | none => none
+  | some [a, b] => some [some a, some b, none]
+  | some vals => some (vals.map some)
 
 end ArmiVerif.Grid
